@@ -93,6 +93,12 @@ func runC05(c *core.Ctx) {
 		addr        [4]byte
 		fcnt        uint32
 	}
+	for k := int64(0); k < 6; k++ {
+		if c.Mine("special-mic", k) {
+			// a genuine frame whose correct MIC is 00000000 / ffffffff must be accepted like any other
+			c02SpecialMIC(c, c.RNG("special-mic", k), [][2]byte{{0, 0}, {0xff, 0xff}}[k%2], "C05")
+		}
+	}
 	var prevFCtrl lorawan.FCtrl
 	havePrevFCtrl := false
 	n := c.N(3000, 400000)
